@@ -10,6 +10,10 @@ def nat? (s : String) : Option Nat := s.toNat?
 def parseRes : String → Res
   | "nil" => .ok | "eof" => .eof | "cancelled" => .cancelled | "timer" => .timer | "post" => .post | _ => .err
 
+def parseKind : String → ObjKind
+  | "tcp" | "fifo" => .stream | "regular" => .regular | "adapter" => .adapter | "listener" => .listener
+  | "packet" => .packet | _ => .timer
+
 def opOf (toks : List String) : Option Nat := (Driver.attr? toks "op").bind nat?
 
 def parseCall (toks : List String) : Option Ev :=
@@ -91,29 +95,35 @@ def tagsOf (s : S) (e : Ev) : List String :=
   | .ret (.pollTimeout _) => ["poll-timeout"]
   | _ => []
 
-def check (sc : Driver.Script) : Driver.Result := Id.run do
+/-- Replay a trace against the monitor and, in parallel, against a model given as a partial step function. -/
+def checkWith {σ : Type} (m0 : σ) (mstep : σ → Ev → Option σ) (sc : Driver.Script) : Driver.Result := Id.run do
   let mut res : Driver.Result := {}
   let mut s : Option S := some {}
+  let mut m : Option σ := some m0
   let mut i := 0
   for ln in sc.lines do
     i := i + 1
     if ln.kind == '<' then
+      let ev? : Option Ev := match ln.toks with
+        | "obj" :: k :: kind :: r :: _ => if r == "ok" then (nat? k).map (fun k => Ev.obj k (parseKind kind)) else none
+        | toks => parseEv toks
       match ln.toks with
-      | "obj" :: k :: kind :: r :: _ =>
-        if r != "ok" then res := { res with envBad := res.envBad <|> some (i, s!"object could not be created: {ln.raw}") }
-        else match s, nat? k with
-          | some st, some k => match step st (.obj k (kind == "regular")) with
-            | .ok st' => s := some st'
-            | .error _ => pure ()
-          | _, _ => pure ()
       | "panic" :: _ =>
         res := { res with specFail := res.specFail <|> some (i, "key=loop.panic the implementation panicked") }
         s := none
-      | toks =>
-        match parseEv toks with
-        | none => res := { res with envBad := res.envBad <|> some (i, s!"unparsable event: {ln.raw}") }
+      | _ =>
+        match ev? with
+        | none => res := { res with envBad := res.envBad <|> some (i, s!"unparsable or failed event: {ln.raw}") }
         | some e =>
           res := { res with ops := res.ops + 1 }
+          match m with
+          | none => pure ()
+          | some mw =>
+            match mstep mw e with
+            | some mw' => m := some mw'
+            | none =>
+              res := { res with modelDiff := some (i, s!"event=[{ln.raw}] is not a transition of the loop model") }
+              m := none
           match s with
           | none => pure ()
           | some st =>
@@ -124,5 +134,7 @@ def check (sc : Driver.Script) : Driver.Result := Id.run do
               res := { res with specFail := some (i, s!"key=loop.{k} event=[{ln.raw}] violates the ledger monitor (clause {k})") }
               s := none
   return res
+
+def check (sc : Driver.Script) : Driver.Result := checkWith () (fun _ _ => some ()) sc
 
 end Driver.LoopSpec
